@@ -90,6 +90,8 @@ def setup(ctx):
         mon.close(name, np.cos(np.radians(ang)), want, rtol=0, atol=1e-9)
 
     ctx.ensure(symmetry, "Umis", post_Umis)
+    for f in ("permutations", "rotations"):
+        ctx.hold(symmetry, f)
 
 
 def workload(ctx):
@@ -110,8 +112,8 @@ def case_system(ctx, p):
     S, mon = ctx.S, ctx.mon
     cs = p["cs"]
     order = ORDERS[cs]
-    perm = S.permutations(cs)
-    rot = S.rotations(cs)
+    perm = ctx.probe_alias(S.permutations, cs)
+    rot = ctx.probe_alias(S.rotations, cs)
     n1 = group_check(mon, "invariant:permutations() is a group of integer unimodular matrices", perm, order, True, 0.0)
     n2 = group_check(mon, "invariant:rotations() is a group of proper rotations", rot, order, False, 1e-12)
     mon.extra["operator_pairs_checked"] = mon.extra.get("operator_pairs_checked", 0) + (n1 or 0) + (n2 or 0)
